@@ -462,7 +462,20 @@ static string step(const vector<string> &t) {
       auto it = db->_type_map.find(n); if (it == db->_type_map.end() || it->second._outer_class != p.first) nl = false; }
     std::map<string, int> seen;
     for (auto &p : db->_wrapper_map) if (!p.second._unique_name.empty()) if (++seen[p.second._unique_name] > 1) un = false;
-    return string("wrapper=") + (wl ? "1" : "0") + " nesting=" + (nl ? "1" : "0") + " unique=" + (un ? "1" : "0");
+    // class <-> sequence links: every listed sequence exists, its getters are methods of the listing class, no record listed twice, none orphaned
+    bool sq = true;
+    std::map<int, int> listed;
+    for (auto &p : db->_type_map) for (int s : p.second._make_seqs) {
+      ++listed[s];
+      auto it = db->_make_seq_map.find(s);
+      if (it == db->_make_seq_map.end()) { sq = false; continue; }
+      bool lg = false, eg = false;
+      for (int m : p.second._methods) { if (m == it->second._length_getter) lg = true; if (m == it->second._element_getter) eg = true; }
+      if (!lg || !eg) sq = false;
+    }
+    for (auto &p : listed) if (p.second > 1) sq = false;
+    for (auto &p : db->_make_seq_map) if (!listed.count(p.first)) sq = false;
+    return string("wrapper=") + (wl ? "1" : "0") + " nesting=" + (nl ? "1" : "0") + " unique=" + (un ? "1" : "0") + " seqs=" + (sq ? "1" : "0");
   }
   if (op == "remap" && t.size() == 2) {
     db->check_latest();
